@@ -385,3 +385,43 @@ Proof.
     apply in_flat_map. exists (T, p). split; [apply lookup_In; exact L|]. cbn [snd].
     apply in_map_iff. exists (f, u). split; [reflexivity|apply lookup_In; exact Hg].
 Qed.
+
+(* ---- PlanningContext.GetURL: what the planner does with the table ---- *)
+
+Lemma tm_get_some_is_node tm T f u : tm_get tm T f = Some u -> exists n, tm_is_node tm T = Some n.
+Proof.
+  unfold tm_get, tm_is_node. destruct (lookup T tm) as [p|]; [|discriminate]. intros _. eexists; reflexivity.
+Qed.
+
+(* a routed field of a root type or of a Node type goes to its route, whatever service the parent step runs
+   at and whatever the kind of the running operation (the function has no such parameter) *)
+Theorem get_url_routed tm T f fb u :
+  is_builtin f = false -> tm_get tm T f = Some u ->
+  is_root T = true \/ tm_is_node tm T = Some true ->
+  get_url tm T f fb = RUrl u.
+Proof.
+  intros Hb Hg Hc. unfold get_url. rewrite Hb.
+  destruct (tm_get_some_is_node _ _ _ _ Hg) as [n Hn]. rewrite Hn, Hg.
+  destruct Hc as [Hr|Hn']; [rewrite Hr, andb_false_r; reflexivity|].
+  rewrite Hn in Hn'. inversion Hn'; subst. reflexivity.
+Qed.
+
+Theorem root_field_goes_to_its_declarer inputs u s T f fb :
+  is_root T = true ->
+  In (u, s) inputs -> declares s T f ->
+  (forall u' s', In (u', s') inputs -> declares s' T f -> u' = u) ->
+  get_url (tm_of inputs) T f fb = RUrl u.
+Proof.
+  intros Hr Hi Hd Hu. apply get_url_routed; [| apply (route_unique_owner inputs u s T f Hi Hd Hu) | left; exact Hr].
+  destruct Hd as (d & fld & _ & _ & _ & _ & _ & Hrt & Hn & _). subst f.
+  unfold routable in Hrt. apply andb_true_iff in Hrt as [Hrt _]. apply negb_true_iff in Hrt. exact Hrt.
+Qed.
+
+(* a type that is neither a root nor stitchable by id is served where its parent is served *)
+Theorem shared_type_stays_with_parent tm T f fb :
+  tm_is_node tm T = Some false -> is_root T = false -> fb <> internal_service ->
+  get_url tm T f fb = RUrl fb.
+Proof.
+  intros Hn Hr Hfb. unfold get_url. destruct (is_builtin f); [reflexivity|]. rewrite Hn, Hr.
+  apply String.eqb_neq in Hfb. rewrite Hfb. reflexivity.
+Qed.
